@@ -33,7 +33,7 @@ CHECKS = {
    engine="TaskMem+MemTrace",
    technique="TLA+ spec TaskMem.tla (live set of a task vs calculate_projected_mem / peak_projected_mem, every operation shape in bounds) model-checked by TLC; per-task tracemalloc peaks of a catalogue of real operations (fused and unfused, two compressor/data regimes) validated by the TLA+ monitor MemTrace.tla",
    text="TLC enumerates every operation shape within bounds and shows that the projection formula dominates the modelled live set under an explicit side condition (and that without it an under-projected shape exists). Every task of ~45 catalogue programs (element-wise, reductions incl. widening and structured intermediates, scans, linear algebra, manipulation, indexing, rechunk, fused diamonds/fan-in) is executed in-process under tracemalloc with 2-4 MB chunks and a 400 kB reserved_mem; the monitor requires peak <= projected <= allowed for each.",
-   note="Trusted: TLC; tracemalloc as the observer of data allocations (NumPy buffers, byte strings); an excess must reproduce in the minimum of three executions. Open findings F11, F12, F16, F20, F21 are reported as KNOWN-FINDING (narrow: program + operation + regime).",
+   note="Trusted: TLC; tracemalloc as the observer of data allocations (NumPy buffers, byte strings); an excess must reproduce in the minimum of three executions. Open findings F11, F12, F16, F20, F21, F33, F34, F35 are reported as KNOWN-FINDING (narrow: program + operation + regime).",
    design_ref="DESIGN.md §5 C03, §4.7"),
  "C04": dict(
    engine="Optimize+OptTrace",
@@ -55,13 +55,13 @@ CHECKS = {
    design_ref="DESIGN.md §5 C06"),
  "C09": dict(
    engine="DagExec+TaskTrace",
-   technique="TLA+ spec DagExec.tla with Crash/Resume model-checked by TLC (switches ResumeRule=any, CreateMode=w must violate; F13 carved out by the taint StaleByF13); crash points at task and chunk-write granularity enumerated against the real code, resumed runs validated by the TLA+ monitor TaskTrace.tla",
+   technique="TLA+ spec DagExec.tla with Crash/Resume model-checked by TLC (switches ResumeRule=any, ResumeRule=count (sharded completeness, finding F27), CreateMode=w must violate; F13 carved out by the taint StaleByF13); crash points at task and chunk-write granularity enumerated against the real code, resumed runs validated by the TLA+ monitor TaskTrace.tla",
    text="For each generated program the computation is crashed after k tasks and before/after the k-th data set, storage is inspected by plain directory listing, compute(resume=True) is run under a recording executor and the monitor requires: an operation is skipped only if every output was complete, complete arrays are not recomputed (except array creation and 0-d outputs), nothing is deleted; the result equals NumPy or the resume is refused before any task (plans with structured-dtype arrays only).",
    note="Trusted: TLC; a crash = client stops between tasks or inside a data set (before/after it took effect); torn single-chunk writes are excluded by LocalStore's atomic rename. Plans <= 60 tasks; quick samples 8 crash points per program, thorough enumerates all.",
    design_ref="DESIGN.md §5 C09"),
  "C10": dict(
    engine="PlanGraph",
-   technique="TLA+ spec PlanGraph.tla (names, plan merging, shared operation objects, in-place re-targeting) model-checked by TLC: every value change goes through a listed taint, ValueFixed itself is violated (F8/F9 are real); TLC-generated call histories (all histories of 5-6 calls + simulated longer ones), labelled with the model's taints, replayed into cubed against NumPy shadows and checksums",
+   technique="TLA+ spec PlanGraph.tla (names, plan merging, shared operation objects, in-place re-targeting) model-checked by TLC: every value change goes through a listed taint (incl. prefilled-resume of the ComputeResume action = F13), ValueFixed itself is violated (F8/F9 are real); TLC-generated call histories (all histories of 5-6 calls + simulated longer ones), labelled with the model's taints, replayed into cubed against NumPy shadows and checksums",
    text="After every replayed call the harness computes what the history says, compares with the value fixed when the array was built, and checks the checksums of in-memory inputs, of a Zarr source opened for reading and of every target written by an earlier store; value-neutral calls (re-compute with resume, optimization on/off, another default executor) are interleaved. A failing history whose taint set (computed by TLC) is empty is a violation; tainted failures are the known findings F8/F9.",
    note="Trusted: TLC; the model's taint as the identity of the known findings (a tainted history that fails for a NEW reason is attributed to the finding). compile_function is not among the replayed calls.",
    design_ref="DESIGN.md §5 C10, §4.3"),
